@@ -4,6 +4,7 @@ import (
 	"fmt"
 	"os"
 	"path/filepath"
+	"strings"
 	"testing"
 
 	"pgregory.net/rapid"
@@ -17,6 +18,10 @@ func genC05(t *rapid.T) hx.SessionCase {
 	tree := hx.GenTree(t, hx.TreeOpts{MaxDepth: 2, MaxEntries: 5, MaxTotal: 14, MaxFile: 70000, Symlinks: false})
 	// a directory usable as image source and an iso below PS3ISO
 	tree.Children = append(tree.Children, hx.Dir("GAME", hx.File("X.BIN", 3000, 77)), hx.Dir("PS3ISO", hx.File("g.iso", 5000, 78)))
+	// sometimes a real directory carrying a virtual-image prefix as its name: paths below it are still image paths
+	if lit := rapid.SampledFrom([]string{"", "", "", "***DVD***", "***PS3***"}).Draw(t, "literal-prefix-dir"); lit != "" {
+		tree.Children = append(tree.Children, hx.Dir(lit, hx.Dir("GAME", hx.File("Y.BIN", 10, 79))))
+	}
 	pool := hx.PoolOf(tree)
 	var reqs []hx.Req
 	n := rapid.IntRange(2, 30).Draw(t, "nreq")
@@ -27,7 +32,33 @@ func genC05(t *rapid.T) hx.SessionCase {
 		case 0, 1, 2:
 			// an upload: CREATE + chunks
 			var p string
-			switch rapid.IntRange(0, 6).Draw(t, l+"-target") {
+			switch rapid.IntRange(0, 11).Draw(t, l+"-target") {
+			case 7, 8:
+				// the same path again (a client restarting its transfer), or over a file uploaded before
+				if len(uploaded) > 0 {
+					p = uploaded[rapid.IntRange(0, len(uploaded)-1).Draw(t, l+"-again")]
+					if rapid.Bool().Draw(t, l+"-last") {
+						p = uploaded[len(uploaded)-1]
+					}
+				} else {
+					p = "/" + hx.GenName(t, "portable", l+"-n")
+				}
+			case 9:
+				// creates that fail for other reasons than a missing parent: through a regular file, over-long name, NUL
+				switch rapid.IntRange(0, 2).Draw(t, l+"-badkind") {
+				case 0:
+					if len(pool.Files) > 0 {
+						p = "/" + rapid.SampledFrom(pool.Files).Draw(t, l+"-thru") + "/x.bin"
+					} else {
+						p = "/GAME/X.BIN/x.bin"
+					}
+				case 1:
+					p = "/" + strings.Repeat("n", 300)
+				default:
+					p = "/nul\x00name"
+				}
+			case 10:
+				p = "/" + strings.Repeat("/deep", 13000)[:65000] // a path of ~64 KiB
 			case 0:
 				if len(pool.Files) > 0 {
 					p = "/" + rapid.SampledFrom(pool.Files).Draw(t, l+"-existing")
@@ -42,8 +73,8 @@ func genC05(t *rapid.T) hx.SessionCase {
 				}
 			case 2:
 				p = "/nodir/" + hx.GenName(t, "portable", l+"-n")
-			case 3:
-				p = rapid.SampledFrom([]string{"/***DVD***/GAME", "/***PS3***/GAME", "/***DVD***/GAME/X.BIN", "/***DVD***/new.bin"}).Draw(t, l+"-virt")
+			case 3, 11:
+				p = rapid.SampledFrom([]string{"/***DVD***/GAME", "/***PS3***/GAME", "/***DVD***/GAME/X.BIN", "/***DVD***/new.bin", "/***PS3***/new.bin", "/***PS3***/GAME/Y.BIN"}).Draw(t, l+"-virt")
 			case 4:
 				if len(pool.Dirs) > 0 {
 					p = "/" + rapid.SampledFrom(pool.Dirs).Draw(t, l+"-nested") + "/" + hx.GenName(t, "portable", l+"-n")
